@@ -63,8 +63,7 @@ def writeNR10 (a : Apu) (v : Nat) : Apu := if !a.control.on then a else { a with
 
 /-- `WriteNR11` / `WriteNR21` on a square: duty only while on, length always -/
 def sqWriteNRx1 (on : Bool) (s : Square) (v : Nat) : Square :=
-  let s := if on then { s with duty := v / 64 } else s
-  { s with length := 64 - v % 64 }
+  { s with duty := if on then v / 64 else s.duty, length := 64 - v % 64 }
 
 def writeNR11 (a : Apu) (v : Nat) : Apu := { a with ch1 := sqWriteNRx1 a.control.on a.ch1 v }
 def writeNR12 (a : Apu) (v : Nat) : Apu := if !a.control.on then a else { a with ch1 := a.ch1.writeNRx2 v }
@@ -104,34 +103,18 @@ def writeNR51 (a : Apu) (v : Nat) : Apu := if !a.control.on then a else { a with
 
 def setOn (a : Apu) (b : Bool) : Apu := { a with control := { a.control with on := b } }
 
+def clearDuties (a : Apu) : Apu := { a with ch1 := { a.ch1 with duty := 0 }, ch2 := { a.ch2 with duty := 0 } }
+
 /-- the power-off arm of `WriteNR52`: switch on, write 0 to the 16 registers, clear the duties, switch off -/
 def powerOff (a : Apu) : Apu :=
-  let a := a.setOn true
-  let a := a.writeNR10 0
-  let a := a.writeNR12 0
-  let a := a.writeNR13 0
-  let a := a.writeNR14 0
-  let a := a.writeNR22 0
-  let a := a.writeNR23 0
-  let a := a.writeNR24 0
-  let a := a.writeNR30 0
-  let a := a.writeNR32 0
-  let a := a.writeNR33 0
-  let a := a.writeNR34 0
-  let a := a.writeNR42 0
-  let a := a.writeNR43 0
-  let a := a.writeNR44 0
-  let a := a.writeNR50 0
-  let a := a.writeNR51 0
-  let a := { a with ch1 := { a.ch1 with duty := 0 }, ch2 := { a.ch2 with duty := 0 } }
-  a.setOn false
+  (((((((((((((((((((a.setOn true).writeNR10 0).writeNR12 0).writeNR13 0).writeNR14 0).writeNR22 0).writeNR23 0).writeNR24 0).writeNR30 0).writeNR32 0).writeNR33 0).writeNR34 0).writeNR42 0).writeNR43 0).writeNR44 0).writeNR50 0).writeNR51 0).clearDuties).setOn false)
+
+/-- the power-on arm of `WriteNR52` -/
+def powerOn (a : Apu) : Apu :=
+  if !a.control.on then ({ a with frameSeqTicks := 0 } : Apu).setOn true else a.setOn true
 
 /-- `WriteNR52` -/
-def writeNR52 (a : Apu) (v : Nat) : Apu :=
-  if v / 128 = 0 then a.powerOff
-  else
-    let a := if !a.control.on then { a with frameSeqTicks := 0 } else a
-    a.setOn true
+def writeNR52 (a : Apu) (v : Nat) : Apu := if v / 128 = 0 then a.powerOff else a.powerOn
 
 def writeWaveRAM (a : Apu) (i v : Nat) : Apu := { a with ch3 := a.ch3.writeRam i v }
 
@@ -166,25 +149,24 @@ def write (a : Apu) (addr v : Nat) : Apu := a.writeB addr (v % 256)
 
 /-! ### register reads (all pure) -/
 
+def bit (b : Bool) (w : Nat) : Nat := if b then w else 0
+
 def readNR10 (a : Apu) : Nat :=
-  let r := 0x80 ||| ((a.ch1.sweepPeriod <<< 4) % 256) ||| a.ch1.sweepShift
-  if !a.ch1.sweepIncrease then (r + 0x08) % 256 else r
+  if !a.ch1.sweepIncrease then ((0x80 ||| ((a.ch1.sweepPeriod <<< 4) % 256) ||| a.ch1.sweepShift) + 0x08) % 256
+  else 0x80 ||| ((a.ch1.sweepPeriod <<< 4) % 256) ||| a.ch1.sweepShift
 def sqReadNRx1 (s : Square) : Nat := 0x3f ||| ((s.duty <<< 6) % 256)
-def sqReadNRx2 (s : Square) : Nat :=
-  let r := ((s.initialVolume <<< 4) % 256) ||| s.envelopeSweep
-  if s.envelopeIncrease then (r + 0x08) % 256 else r
+/-- `ReadNR12` / `ReadNR22` / `ReadNR42` from the three envelope fields -/
+def envRead (iv : Nat) (inc : Bool) (es : Nat) : Nat :=
+  if inc then ((((iv <<< 4) % 256) ||| es) + 0x08) % 256 else ((iv <<< 4) % 256) ||| es
+def sqReadNRx2 (s : Square) : Nat := envRead s.initialVolume s.envelopeIncrease s.envelopeSweep
 def readNR30 (a : Apu) : Nat := if a.ch3.dacEnabled then 0xff else 0x7f
 def readNR32 (a : Apu) : Nat := 0x9f ||| ((a.ch3.outputLevel <<< 5) % 256)
-def readNR42 (a : Apu) : Nat :=
-  let r := ((a.ch4.initialVolume <<< 4) % 256) ||| a.ch4.envelopeSweep
-  if a.ch4.envelopeIncrease then (r + 0x08) % 256 else r
+def readNR42 (a : Apu) : Nat := envRead a.ch4.initialVolume a.ch4.envelopeIncrease a.ch4.envelopeSweep
 def readNR43 (a : Apu) : Nat :=
   ((a.ch4.shift <<< 4) % 256) ||| ((a.ch4.lfsrWidth <<< 3) % 256) ||| a.ch4.divisor
 def readNR50 (a : Apu) : Nat :=
-  let r := ((a.control.volumeLeft <<< 4) % 256) ||| a.control.volumeRight
-  let r := if a.control.vinLeftEnable then (r + 0x80) % 256 else r
-  if a.control.vinRightEnable then (r + 0x08) % 256 else r
-def bit (b : Bool) (w : Nat) : Nat := if b then w else 0
+  (((((a.control.volumeLeft <<< 4) % 256) ||| a.control.volumeRight) + bit a.control.vinLeftEnable 0x80) % 256
+    + bit a.control.vinRightEnable 0x08) % 256
 def readNR51 (a : Apu) : Nat :=
   (bit a.control.ch4Left 0x80 + bit a.control.ch3Left 0x40 + bit a.control.ch2Left 0x20 + bit a.control.ch1Left 0x10
    + bit a.control.ch4Right 0x08 + bit a.control.ch3Right 0x04 + bit a.control.ch2Right 0x02 + bit a.control.ch1Right 0x01) % 256
@@ -226,17 +208,25 @@ def read (a : Apu) (addr : Nat) : Option Nat :=
 def mixNum (r1 r2 r3 r4 : Bool) (w1 w2 w3 w4 vol : Nat) : Nat :=
   3 * (bit r1 w1 + bit r2 w2 + bit r3 w3 + bit r4 w4) * vol
 
-/-- `takeSample` -/
-def takeSample (a : Apu) : Apu :=
-  if !a.control.on || !a.hasL || !a.hasR then a else
+def leftNum (c : Control) (w1 w2 w3 w4 : Nat) : Nat :=
+  mixNum c.ch1Left c.ch2Left c.ch3Left c.ch4Left w1 w2 w3 w4 c.volumeLeft
+def rightNum (c : Control) (w1 w2 w3 w4 : Nat) : Nat :=
+  mixNum c.ch1Right c.ch2Right c.ch3Right c.ch4Right w1 w2 w3 w4 c.volumeRight
+
+/-- the pair of numerators `takeSample` sends; `none` = `waveduty` index panic -/
+def samplePair (a : Apu) : Option (Nat × Nat) :=
   match a.ch1.sampleNum, a.ch2.sampleNum with
   | some w1, some w2 =>
-    let w3 := a.ch3.sampleNum
-    let w4 := a.ch4.sampleNum
-    let c := a.control
-    { a with out := (mixNum c.ch1Left c.ch2Left c.ch3Left c.ch4Left w1 w2 w3 w4 c.volumeLeft,
-                     mixNum c.ch1Right c.ch2Right c.ch3Right c.ch4Right w1 w2 w3 w4 c.volumeRight) :: a.out }
-  | _, _ => { a with crash := true }
+    some (leftNum a.control w1 w2 a.ch3.sampleNum a.ch4.sampleNum,
+          rightNum a.control w1 w2 a.ch3.sampleNum a.ch4.sampleNum)
+  | _, _ => none
+
+/-- `takeSample` -/
+def takeSample (a : Apu) : Apu :=
+  if !a.control.on || !a.hasL || !a.hasR then a
+  else match a.samplePair with
+    | some p => { a with out := p :: a.out }
+    | none => { a with crash := true }
 
 /-! ### clocking (audio.go) -/
 
@@ -250,33 +240,41 @@ def tickTimer (a : Apu) : Apu :=
 /-- uint64 `a - b` -/
 def sub64 (a b : Nat) : Nat := (a % two64 + two64 - b % two64) % two64
 
+/-- length clocks of `tickFrameSequencer` -/
+def lenPart (a : Apu) : Apu :=
+  if a.frameSeqTicks % 2 = 0 then
+    { a with ch1 := a.ch1.tickLength, ch2 := a.ch2.tickLength, ch3 := a.ch3.tickLength, ch4 := a.ch4.tickLength }
+  else a
+
+/-- envelope clocks of `tickFrameSequencer` -/
+def envPart (a : Apu) : Apu :=
+  if sub64 a.frameSeqTicks 7 % 8 = 0 then
+    { a with ch1 := a.ch1.tickVolumeEnvelope, ch2 := a.ch2.tickVolumeEnvelope, ch4 := a.ch4.tickVolumeEnvelope }
+  else a
+
+/-- sweep clock of `tickFrameSequencer` -/
+def sweepPart (a : Apu) : Apu :=
+  if sub64 a.frameSeqTicks 2 % 4 = 0 then { a with ch1 := a.ch1.tickSweep } else a
+
+def incFs (a : Apu) : Apu := { a with frameSeqTicks := (a.frameSeqTicks + 1) % two64 }
+
 /-- `tickFrameSequencer` -/
-def tickFrameSequencer (a : Apu) : Apu :=
-  let a := if a.frameSeqTicks % 2 = 0 then
-      { a with ch1 := a.ch1.tickLength, ch2 := a.ch2.tickLength, ch3 := a.ch3.tickLength, ch4 := a.ch4.tickLength }
-    else a
-  let a := if sub64 a.frameSeqTicks 7 % 8 = 0 then
-      { a with ch1 := a.ch1.tickVolumeEnvelope, ch2 := a.ch2.tickVolumeEnvelope, ch4 := a.ch4.tickVolumeEnvelope }
-    else a
-  let a := if sub64 a.frameSeqTicks 2 % 4 = 0 then { a with ch1 := a.ch1.tickSweep } else a
-  { a with frameSeqTicks := (a.frameSeqTicks + 1) % two64 }
+def tickFrameSequencer (a : Apu) : Apu := a.lenPart.envPart.sweepPart.incFs
+
+/-- `if a.frameSeqTicks >= 512 { a.frameSeqTicks = 0 }` -/
+def wrapFs (a : Apu) : Apu := if a.frameSeqTicks ≥ 512 then { a with frameSeqTicks := 0 } else a
 
 /-- the `if a.ticks%frameSeqPeriod == 0 { … }` block of `tickClock` -/
 def frameSeqPart (a : Apu) : Apu :=
-  if a.ticks % frameSeqPeriod = 0 then
-    let a := a.tickFrameSequencer
-    if a.frameSeqTicks ≥ 512 then { a with frameSeqTicks := 0 } else a
-  else a
+  if a.ticks % frameSeqPeriod = 0 then a.tickFrameSequencer.wrapFs else a
 
 /-- the `if a.ticks%samplerPeriod == 0 { … }` block -/
 def samplerPart (a : Apu) : Apu := if a.ticks % samplerPeriod = 0 then a.takeSample else a
 
+def incTicks (a : Apu) : Apu := { a with ticks := (a.ticks + 1) % two64 }
+
 /-- `tickClock` -/
-def tickClock (a : Apu) : Apu :=
-  let a := a.tickTimer
-  let a := a.frameSeqPart
-  let a := a.samplerPart
-  { a with ticks := (a.ticks + 1) % two64 }
+def tickClock (a : Apu) : Apu := a.tickTimer.frameSeqPart.samplerPart.incTicks
 
 def clearTriggered (a : Apu) : Apu :=
   { a with ch1 := { a.ch1 with triggered := false }, ch2 := { a.ch2 with triggered := false },
@@ -302,26 +300,23 @@ def initWaveRam : WaveRam :=
 
 /-- `audio.New(l, r)`: the struct literal followed by the 18 register writes (most of which are
     ignored because `control.on` is still false – the code is modelled as it is) -/
+def new0 (hasL hasR : Bool) : Apu :=
+  { hasL := hasL, hasR := hasR, ch3 := { waveram := initWaveRam }, ticks := 1 }
+
 def new (hasL hasR : Bool) : Apu :=
-  let a : Apu := { hasL := hasL, hasR := hasR, ch3 := { waveram := initWaveRam }, ticks := 1 }
-  let a := a.writeNR10 0x80
-  let a := a.writeNR11 0xbf
-  let a := a.writeNR12 0xf3
-  let a := a.writeNR13 0xff
-  let a := a.writeNR14 0xbf
-  let a := a.writeNR21 0x3f
-  let a := a.writeNR23 0xff
-  let a := a.writeNR24 0xbf
-  let a := a.writeNR30 0x7f
-  let a := a.writeNR31 0xff
-  let a := a.writeNR32 0x9f
-  let a := a.writeNR33 0xff
-  let a := a.writeNR34 0xbf
-  let a := a.writeNR41 0xff
-  let a := a.writeNR44 0xbf
-  let a := a.writeNR50 0x77
-  let a := a.writeNR51 0xf3
-  a.writeNR52 0xf1
+  ((((((((((((((((((new0 hasL hasR).writeNR10 0x80).writeNR11 0xbf).writeNR12 0xf3).writeNR13 0xff).writeNR14 0xbf).writeNR21 0x3f).writeNR23 0xff).writeNR24 0xbf).writeNR30 0x7f).writeNR31 0xff).writeNR32 0x9f).writeNR33 0xff).writeNR34 0xbf).writeNR41 0xff).writeNR44 0xbf).writeNR50 0x77).writeNR51 0xf3).writeNR52 0xf1
+
+/-- the operations of a history: a bus write to FF10–FF3F or one machine cycle (reads are pure) -/
+inductive Op where
+  | write (addr v : Nat)
+  | cycle
+deriving DecidableEq, Repr
+
+def step (a : Apu) : Op → Apu
+  | .write ad v => a.write ad v
+  | .cycle => a.endMachineCycle
+
+def run (a : Apu) (ops : List Op) : Apu := ops.foldl step a
 
 end Apu
 end Tetro.Model.Apu
